@@ -144,4 +144,27 @@ theorem wdm_frameworks_override_only_transfer_and_dndm :
     ((Gen.descMassFunctionWDM.bodies.filter (fun b => b.1 == 4)).map (·.2.1)) = [Gen.N.dndm] ∧
     ((Gen.descMassFunctionWDM.bodies.filter (fun b => b.1 == 3)).map (·.2.1)) = [Gen.N._unnormalised_lnT, Gen.N.wdm] := by decide +kernel
 
+/-- reads of a read program, `super` reads marked by their owner -/
+def tmReadsTagged : Tm → List (Option Nat × Name)
+  | .p n => [(none, n)]
+  | .q n => [(none, n)]
+  | .sup o n => [(some o, n)]
+  | .pair _ a b => tmReadsTagged a ++ tmReadsTagged b
+  | .ite _ c t e => tmReadsTagged c ++ tmReadsTagged t ++ tmReadsTagged e
+  | .raiseIf _ c k => tmReadsTagged c ++ tmReadsTagged k
+  | .const _ => []
+
+def sameReads (a b : List (Option Nat × Name)) : Bool := a.all (b.contains ·) && b.all (a.contains ·)
+
+/-- C17 ("the ratio of WDM to CDM transfer equals the WDM model's suppression", "dn/dm is the CDM one times the recalibration"): the two
+    bodies the WDM frameworks add read the **inherited CDM value** of the same quantity (`super()`), the WDM component and the grid they are
+    evaluated on — nothing else: `_unnormalised_lnT` reads {CDM `_unnormalised_lnT`, `wdm`, `k`}; `dndm` reads {CDM `dndm`, `alter_model`,
+    `alter_params`, `m`, `wdm`} -/
+theorem wdm_bodies_read_cdm_value_and_component :
+    ((Gen.descTransferWDM.bodyOf 3 Gen.N._unnormalised_lnT).map fun t =>
+        sameReads (tmReadsTagged t) [(some 1, Gen.N._unnormalised_lnT), (none, Gen.N.wdm), (none, Gen.N.k)]) = some true ∧
+    ((Gen.descMassFunctionWDM.bodyOf 4 Gen.N.dndm).map fun t =>
+        sameReads (tmReadsTagged t) [(some 2, Gen.N.dndm), (none, Gen.N.alter_model), (none, Gen.N.alter_params), (none, Gen.N.m), (none, Gen.N.wdm)]) = some true := by
+  decide +kernel
+
 end Hmf.C17
